@@ -343,6 +343,11 @@ func FreePort() int {
 // StartServerBin starts "server" on a free loopback port with the given extra
 // args/env, retrying on port collisions.
 func StartServerBin(root string, extra []string, env []string, dir string) (*Bin, error) {
+	return StartServerBinOpts(root, extra, env, dir, 0)
+}
+
+// StartServerBinOpts: with an address-space limit (ulimit -v, KB) when vlimitKB > 0.
+func StartServerBinOpts(root string, extra []string, env []string, dir string, vlimitKB int) (*Bin, error) {
 	var last error
 	for try := 0; try < 5; try++ {
 		port := FreePort()
@@ -352,7 +357,7 @@ func StartServerBin(root string, extra []string, env []string, dir string) (*Bin
 			args = append(args, "--root="+root)
 		}
 		args = append(args, extra...)
-		b, err := StartBin(BinOpts{Args: args, Env: env, Dir: dir})
+		b, err := StartBin(BinOpts{Args: args, Env: env, Dir: dir, VLimitKB: vlimitKB})
 		if err != nil {
 			return nil, err
 		}
